@@ -138,6 +138,10 @@ def extra(ctx):
     return fails[:4]
 
 
+KNOWN = [{"key": "copied-thread-finished",
+          "desc": "a Thread copied after start: join() through the copy works but its finished() stays false for ever",
+          "case": ["thr cpy 1 1"]}]
+
 TECHNIQUE = "Lean 4 theorems (arithmetic partition proof; invariant over an interleaving model for any number of workers) + trace inclusion of hook-point traces + exhaustive ranges"
 LEVEL_TEXT = ("Proved in Lean 4: for all integers i0, i1 and every nth >= 1 the workers of parallel_for run exactly the indices of "
               "[i0,i1), none twice, nothing when i1 <= i0 (parallel_for_covers / _exactly_once); for any number of workers and every "
